@@ -534,105 +534,105 @@ where
         off: usize,
         re_str: &'a str,
     ) -> LexInternalBuildResult<(Vec<usize>, std::borrow::Cow<'a, str>)> {
-        if !re_str.starts_with('<') {
-            /// This implements the 'Table: Escape Sequences in lex' from POSIX lex specification
-            ///
-            /// Most of the escape handling is left to regex, except this part:
-            ///
-            /// Escape: \c
-            ///
-            /// Description:
-            /// A <backslash> character followed by any character not described in this table or in the table in
-            /// XBD File Format Notation ( '\\', '\a', '\b', '\f' , '\n', '\r', '\t', '\v' ).
-            ///
-            /// Meaning: The character 'c', unchanged.
-            fn unescape<'b>(re: Cow<'b, str>, lex_flags: &'_ LexFlags) -> Cow<'b, str> {
-                // POSIX lex has two layers of escaping, there are escapes for the regular
-                // expressions themselves and the escapes which get handled by lex directly.
-                // We can find what the `regex` crate needs to be escaped with `is_meta_character`.
-                //
-                // We need to avoid sending Regex an escaped character which it does not consider
-                // a meta_character. As that would fail to compile. While ensuring we retain
-                // the escape sequences for the meta characters that it does require.
-                //
-                // '<' is interesting because when used at the beginning of a regex, intended to
-                // be part of the regex, it needs to be escaped, otherwise lex will interpret it
-                // as the beginning of a [`StartState`](StartState)
-                //
-                // If regex_syntax changes behavior here, it is highly likely that we should just
-                // remove this assertion, and send regex `\<`. Instead of unescaping `\<` into `<`.
-                // still it may be worthwhile to ensure that we notice such a change.
-                debug_assert!(regex_syntax::is_meta_character('<').not());
-                let re_str: &str = re.borrow();
-                let mut re_chars = re_str.char_indices();
+        /// This implements the 'Table: Escape Sequences in lex' from POSIX lex specification
+        ///
+        /// Most of the escape handling is left to regex, except this part:
+        ///
+        /// Escape: \c
+        ///
+        /// Description:
+        /// A <backslash> character followed by any character not described in this table or in the table in
+        /// XBD File Format Notation ( '\\', '\a', '\b', '\f' , '\n', '\r', '\t', '\v' ).
+        ///
+        /// Meaning: The character 'c', unchanged.
+        fn unescape<'b>(re: Cow<'b, str>, lex_flags: &'_ LexFlags) -> Cow<'b, str> {
+            // POSIX lex has two layers of escaping, there are escapes for the regular
+            // expressions themselves and the escapes which get handled by lex directly.
+            // We can find what the `regex` crate needs to be escaped with `is_meta_character`.
+            //
+            // We need to avoid sending Regex an escaped character which it does not consider
+            // a meta_character. As that would fail to compile. While ensuring we retain
+            // the escape sequences for the meta characters that it does require.
+            //
+            // '<' is interesting because when used at the beginning of a regex, intended to
+            // be part of the regex, it needs to be escaped, otherwise lex will interpret it
+            // as the beginning of a [`StartState`](StartState)
+            //
+            // If regex_syntax changes behavior here, it is highly likely that we should just
+            // remove this assertion, and send regex `\<`. Instead of unescaping `\<` into `<`.
+            // still it may be worthwhile to ensure that we notice such a change.
+            debug_assert!(regex_syntax::is_meta_character('<').not());
+            let re_str: &str = re.borrow();
+            let mut re_chars = re_str.char_indices();
 
-                // Look for an escape sequence which needs unescaping
-                let mut cursor = loop {
-                    if let Some((i, c)) = re_chars.next() {
-                        if c == '\\' {
-                            // Look at the next character and whether it is something we need to unescape
-                            if let Some((j, c2)) = re_chars.next() {
-                                let s = &re_str[j..];
-                                if !(regex_syntax::is_meta_character(c2)
-                                    || RE_LEX_ESC_LITERAL.is_match(s))
-                                {
-                                    break Some((i, s, j, c2));
-                                }
+            // Look for an escape sequence which needs unescaping
+            let mut cursor = loop {
+                if let Some((i, c)) = re_chars.next() {
+                    if c == '\\' {
+                        // Look at the next character and whether it is something we need to unescape
+                        if let Some((j, c2)) = re_chars.next() {
+                            let s = &re_str[j..];
+                            if !(regex_syntax::is_meta_character(c2)
+                                || RE_LEX_ESC_LITERAL.is_match(s))
+                            {
+                                break Some((i, s, j, c2));
                             }
                         }
-                    } else {
-                        break None;
                     }
-                };
-
-                if cursor.is_none() {
-                    // There is nothing to unescape, return the original parameter
-                    return re;
+                } else {
+                    break None;
                 }
+            };
 
-                // At this point we have found something to unescape
-                let mut unescaped = String::new();
-                let mut last_pos = 0;
-
-                'outer: while let Some((i, s, j, c)) = cursor {
-                    if c == 'b' {
-                        unescaped.push_str(&re_str[last_pos..i]);
-                        unescaped.push_str(if let Some(true) = lex_flags.posix_escapes {
-                            "\\x08"
-                        } else {
-                            "\\b"
-                        });
-                        last_pos = j + 1;
-                    } else if regex_syntax::is_meta_character(c) || RE_LEX_ESC_LITERAL.is_match(s) {
-                        // For both meta characters and literals we want to push the entire substring
-                        // up to and including the c match back into the string still escaped.
-                        unescaped.push_str(&re_str[last_pos..j + c.len_utf8()]);
-                        last_pos = j + c.len_utf8();
-                    } else {
-                        // Given '\c' in the original string, push 'c' to the new string.
-                        unescaped.push_str(&re_str[last_pos..i]);
-                        last_pos = j + c.len_utf8();
-                        unescaped.push_str(&re_str[j..last_pos]);
-                    }
-
-                    // Continue looking for the next escape sequence in the original unmodified string.
-                    loop {
-                        if let Some((step1_pos, step1)) = re_chars.next() {
-                            if step1 == '\\' {
-                                cursor = re_chars.next().map(|(step2_pos, step2)| {
-                                    (step1_pos, &re_str[step2_pos..], step2_pos, step2)
-                                });
-                                continue 'outer;
-                            }
-                        } else {
-                            // Hit the end without finding another escape sequence. Copy over the trailing string.
-                            unescaped.push_str(&re_str[last_pos..]);
-                            break 'outer;
-                        }
-                    }
-                }
-                Cow::from(unescaped)
+            if cursor.is_none() {
+                // There is nothing to unescape, return the original parameter
+                return re;
             }
+
+            // At this point we have found something to unescape
+            let mut unescaped = String::new();
+            let mut last_pos = 0;
+
+            'outer: while let Some((i, s, j, c)) = cursor {
+                if c == 'b' {
+                    unescaped.push_str(&re_str[last_pos..i]);
+                    unescaped.push_str(if let Some(true) = lex_flags.posix_escapes {
+                        "\\x08"
+                    } else {
+                        "\\b"
+                    });
+                    last_pos = j + 1;
+                } else if regex_syntax::is_meta_character(c) || RE_LEX_ESC_LITERAL.is_match(s) {
+                    // For both meta characters and literals we want to push the entire substring
+                    // up to and including the c match back into the string still escaped.
+                    unescaped.push_str(&re_str[last_pos..j + c.len_utf8()]);
+                    last_pos = j + c.len_utf8();
+                } else {
+                    // Given '\c' in the original string, push 'c' to the new string.
+                    unescaped.push_str(&re_str[last_pos..i]);
+                    last_pos = j + c.len_utf8();
+                    unescaped.push_str(&re_str[j..last_pos]);
+                }
+
+                // Continue looking for the next escape sequence in the original unmodified string.
+                loop {
+                    if let Some((step1_pos, step1)) = re_chars.next() {
+                        if step1 == '\\' {
+                            cursor = re_chars.next().map(|(step2_pos, step2)| {
+                                (step1_pos, &re_str[step2_pos..], step2_pos, step2)
+                            });
+                            continue 'outer;
+                        }
+                    } else {
+                        // Hit the end without finding another escape sequence. Copy over the trailing string.
+                        unescaped.push_str(&re_str[last_pos..]);
+                        break 'outer;
+                    }
+                }
+            }
+            Cow::from(unescaped)
+        }
+        if !re_str.starts_with('<') {
             Ok((vec![], unescape(Cow::from(re_str), &self.lex_flags)))
         } else {
             match re_str.find('>') {
@@ -644,7 +644,11 @@ where
                         .map(|s| self.get_start_state_by_name(off, s))
                         .map(|s| s.map(|ss| ss.id))
                         .collect::<LexInternalBuildResult<Vec<usize>>>()?;
-                    Ok((start_states, Cow::from(&re_str[j + 1..])))
+                    // A start state prefix does not change what the regular expression means.
+                    Ok((
+                        start_states,
+                        unescape(Cow::from(&re_str[j + 1..]), &self.lex_flags),
+                    ))
                 }
             }
         }
